@@ -86,6 +86,10 @@ def _mat_job(job):
                     out.append(dict(site=f"{name}/{site_sfx}", stratum=f"n={n}/{path}", case=case,
                                     expected="a result", observed=f"raised {type(e).__name__}: {e}"))
                     continue
+                if np.shape(got) != np.shape(exp):
+                    out.append(dict(site=f"{name}/{site_sfx}", stratum=f"n={n}/{path}", case=case,
+                                    expected={"shape": list(np.shape(exp))}, observed={"shape": list(np.shape(got))}))
+                    continue
                 if not close(got, exp):
                     bad = np.argwhere(~(np.abs(np.asarray(got) - exp) <= TOL * np.maximum(1, np.abs(exp))))
                     j = tuple(bad[0][: len(shape)]) if len(bad) else (0,) * len(shape)
